@@ -41,7 +41,7 @@ func (c *OCSPRevocationChecker) IsRevoked(clientCertificate *x509.Certificate, v
 	if err != nil {
 		return nil, err
 	}
-	cacheKey := issuer.String() + "_" + clientCertificate.SerialNumber.String()
+	cacheKey := core.NameIdentity(issuer) + "_" + clientCertificate.SerialNumber.String()
 	cache, err := c.tryGetResponseFromCache(cacheKey)
 	if err == nil {
 		return cache, nil
